@@ -487,7 +487,7 @@ func vC33_batches() {
 		eager[i] = vNondetBool("eager")
 		grains[i].EagerRelocation = eager[i]
 	}
-	nA, nG := vChoose("actors", 4), vChoose("grains", 4)
+	nA, nG := vCase("actors"), vCase("grains") // list lengths are split into jobs
 	requests := buildRelocateBatchRequests("dead:1", actors[:nA], grains[:nG])
 	from := vChoose("firstUnsent", 7)
 	vAssume(from <= len(requests))
